@@ -1005,6 +1005,9 @@ func (fc *FuncCtx) modOfInstr(fr *Frame, ins ssa.Instruction, cells map[*ssa.All
 				mi.heaps[h] = true
 				fc.p.registerHeap(h+"#n", SInt)
 				mi.heaps[h+"#n"] = true
+				if fc.p.iterSumHeaps(r) {
+					mi.heaps[h+"#sum"] = true
+				}
 			}
 		}
 	}
@@ -1554,6 +1557,9 @@ func (fc *FuncCtx) bindLoopVars(fr *Frame, li *loopInfo, st *State, env *Env) {
 					env.vars["$vis"] = SVal{T: st.H(fc.p, iterHeapName(r))}
 					// $i of a map range: the number of keys produced so far
 					env.vars["$i"] = SVal{T: st.H(fc.p, iterHeapName(r)+"#n"), Typ: tInt}
+					if _, has := st.heap[iterHeapName(r)+"#sum"]; has {
+						env.vars["$isum"] = SVal{T: st.H(fc.p, iterHeapName(r)+"#sum"), Typ: tInt}
+					}
 				}
 			}
 		}
